@@ -57,8 +57,9 @@ def run(ck):
 
     n = {"quick": 300, "thorough": 5000}[ck.tier]
     out = os.path.join(ck.work, "c20.jsonl")
-    rc, log = ck.go_test_overlay(PKG, {"zz_verif_test.go": os.path.join(H, "fetch_verif_test.go")}, run="TestVerif$",
-                                 env={"VERIF_OUT": out, "VERIF_N": str(n)})
+    rc, log = ck.go_test_overlay(PKG, {"zz_verif_test.go": os.path.join(H, "fetch_verif_test.go")}, run="TestVerif(Lock)?$",
+                                 env={"VERIF_OUT": out, "VERIF_N": str(n),
+                                      "VERIF_LOCK_ROUNDS": {"quick": "40", "thorough": "400"}[ck.tier]})
     if rc != 0 or not os.path.exists(out):
         ck.correspondence_broken("harness:" + PKG, log[-1500:])
         return ck.finish()
@@ -68,6 +69,18 @@ def run(ck):
         recs[r["kind"]].append(r)
     for v in recs["viol"]:
         ck.violation(v["key"], "%s %s: %s" % (v.get("fmt"), v.get("class"), v.get("what", "")), v)
+
+    # concurrency smoke test of the lock protocol (sampled schedules only; no theorem behind it)
+    lock_rounds = 0
+    lp = out + ".lock.jsonl"
+    if os.path.exists(lp):
+        for line in open(lp):
+            r = json.loads(line)
+            lock_rounds += 1
+            if r["problems"]:
+                ck.violation("lock-incomplete-copy", "%d concurrent checkDownloadAndExtractLib calls: %s" % (r["callers"], r["problems"]), r)
+    else:
+        ck.correspondence_broken("harness:lock-smoke-test", "no output")
 
     hdr = "From Coq Require Import String.\nFrom LLGoV Require Import C20.Model.\nLocal Open Scope N_scope.\n"
     total = 0
@@ -117,12 +130,13 @@ def run(ck):
     classes["filepath.Clean"] = len(recs["clean"])
     classes["filepath.Join"] = len(recs["join"])
     classes["skipped(writer refuses name)"] = len(recs["skip"])
+    classes["lock-protocol rounds (2-4 concurrent callers, httptest)"] = lock_rounds
     samples = []
     for k in ("tar", "zip"):
         if recs[k]:
             samples.append({k: show_arch(recs[k][len(recs[k]) // 3])})
     ck.add_cov(evaluations=total, nontrivial=len(distinct), samples=samples, classes=dict(classes))
-    ck.cov["rule"] = ("filepath.Clean on every string over {/ . a} up to length 7 and random longer mixes, filepath.Join on random pairs "
+    ck.cov["rule"] = ("filepath.Clean on every string over {/ . a} up to length 6 and random longer mixes, filepath.Join on random pairs "
                       "(validates the lexical model); archives with names from {plain, nested, .. first/middle/deep/two levels/back inside, "
                       "sibling sharing the prefix, empty, ., ./, absolute, mixed}, explicit and implicit parents, duplicates, "
                       "dir-vs-file clashes, link entries, contents incl. empty and binary, written with archive/tar+gzip and archive/zip, "
